@@ -224,6 +224,10 @@ def typeof(n, env: Optional[dict] = None) -> str:
         return "U"
     if t == "boxget":
         return "B"
+    if t == "comment":
+        return typeof(n[2], env) if len(n) > 2 and n[2] is not None else "N"
+    if t == "pragma":
+        return typeof(n[2], env)
     if t in STMT_TAGS:
         return "N"
     raise RecipeError("unknown node tag %r" % (t,))
@@ -306,6 +310,8 @@ def children(n) -> List[Any]:
         return out
     if t == "comment":
         return [n[2]] if len(n) > 2 and n[2] is not None else []
+    if t == "pragma":
+        return [n[2]]
     if t == "wideratio":
         return list(n[1]) + list(n[2])
     if t in ("boxput",):
